@@ -47,3 +47,12 @@ pub broadcast proof fn axiom_contains_str(s: Seq<char>, p: &str, r: bool)
     requires #[trigger] contains_post::<&str>(s, p, r)
     ensures r == seq_contains(s, p@)
 {}
+
+pub uninterp spec fn starts_with_post<P>(s: Seq<char>, p: P, r: bool) -> bool;
+pub assume_specification<P: core::str::pattern::Pattern>[ str::starts_with::<P> ](s: &str, p: P) -> (r: bool)
+    ensures starts_with_post(s@, p, r);
+#[verifier::external_body]
+pub broadcast proof fn axiom_starts_with_char(s: Seq<char>, p: char, r: bool)
+    requires #[trigger] starts_with_post::<char>(s, p, r)
+    ensures r == (s.len() > 0 && s[0] == p)
+{}
